@@ -33,6 +33,11 @@ ALLOWED_CURSOR_WRITERS = {
 }
 
 
+def _is_struct_obj(repo, recv):
+    from ..model import struct_object_attrs
+    return canon(recv) == 'struct' or (isinstance(recv, ast.Attribute) and recv.attr in struct_object_attrs(repo))
+
+
 def check_concatenation(ctx):
     repo = ctx.repo
     rule = 'C02-in-order-concatenation'
@@ -53,7 +58,7 @@ def check_concatenation(ctx):
                     ctx.violation(rule, fi, st, 'a pack strategy places bytes at an explicit position: the output is no longer the in-order concatenation of the fields', node.lineno, clause='2')
                 elif m in ('tobytes', 'fill', 'current_offset'):
                     pass
-            if isinstance(node, ast.Call) and isinstance(node.func, ast.Attribute) and node.func.attr in ('pack', 'pack_impl') and canon(node.func.value) != 'self.struct_obj':
+            if isinstance(node, ast.Call) and isinstance(node.func, ast.Attribute) and node.func.attr in ('pack', 'pack_impl') and not _is_struct_obj(repo, node.func.value):
                 delegated = True
             if isinstance(node, ast.Call) and isinstance(node.func, ast.Name) and node.func.id == 'pack':
                 delegated = True
@@ -71,7 +76,7 @@ def check_concatenation(ctx):
                 for p_ in repo.walker(max_paths=ctx.max_paths).paths(fi.node, cls=ci):
                     for e in p_.all_effects():
                         if e.kind == 'call' and isinstance(e.call.func, ast.Attribute) and e.call.func.attr in ('pack', 'pack_impl') \
-                                and canon(e.call.func.value) != 'self.struct_obj':
+                                and not _is_struct_obj(repo, e.call.func.value):
                             delegated = True
             except Undecided:
                 pass
